@@ -216,12 +216,21 @@ class CachingLoaderMixin(ABC, _CachingLoaderProtocol):
 
         # Args take priority over context variables.
         with suppress(KeyError):
-            return f"{args[self.namespace_key]}/{name}"
+            return self._namespaced(args[self.namespace_key], name)
 
         if context is None:
             return name
 
         try:
-            return f"{context.globals[self.namespace_key]}/{name}"
+            return self._namespaced(context.globals[self.namespace_key], name)
         except KeyError:
             return name
+
+    @staticmethod
+    def _namespaced(namespace: object, name: str) -> str:
+        try:
+            return f"{namespace}/{name}"
+        except ValueError:
+            # An integer beyond the int to str digit limit. Hexadecimal
+            # conversion has no such limit and the key stays unique.
+            return f"{namespace:x}/{name}"
